@@ -260,6 +260,7 @@ type runner struct {
 	coqBytes       int
 	coqBudget      int
 	missingComps   int
+	compsChecked   int
 	rejectedLabels []string
 }
 
@@ -364,6 +365,43 @@ func (r *runner) checkOffsets(name string, typ uint, data []byte, root *vh.Item,
 			}
 		}
 		r.missingComps += len(tc.datums[i]) - len(t.Datums) + len(tc.scripts[i]) - len(t.Scripts) + len(tc.redeemers[i]) - len(t.Redeemers)
+		// completeness (C07_witness_components_complete): every component of the independently
+		// parsed witness set has an entry under its own key, and the maps hold nothing else
+		// (equal bytes share one hash key, so counts are compared on distinct keys)
+		dk := map[common.Blake2b256]bool{}
+		for q, d := range tc.datums[i] {
+			sp := lay[d]
+			var h common.Blake2b256
+			sum := blake2b.Sum256(data[sp.Off : sp.Off+sp.Len])
+			copy(h[:], sum[:])
+			dk[h] = true
+			if _, ok := t.Datums[h]; !ok {
+				viol(name+":datum-missing:outer-"+hc, fmt.Sprintf("tx %d datum %d (%x, encoded at %v) has no reported range", i, q, h[:4], sp))
+			}
+		}
+		sk := map[common.ScriptHash]bool{}
+		for q, s := range tc.scripts[i] {
+			sp := lay[s]
+			hh, _ := blake2b.New(28, nil)
+			hh.Write([]byte{tc.scriptTy[i][q]})
+			hh.Write(data[sp.Off : sp.Off+sp.Len])
+			var h common.ScriptHash
+			copy(h[:], hh.Sum(nil))
+			sk[h] = true
+			if _, ok := t.Scripts[h]; !ok {
+				viol(name+":script-missing:outer-"+hc, fmt.Sprintf("tx %d script %d (type %d, %x, encoded at %v) has no reported range", i, q, tc.scriptTy[i][q], h[:4], sp))
+			}
+		}
+		for k := range tc.redeemers[i] {
+			if _, ok := t.Redeemers[k]; !ok {
+				viol(name+":redeemer-missing:outer-"+hc, fmt.Sprintf("tx %d redeemer %v has no reported range", i, k))
+			}
+		}
+		if len(dk) != len(t.Datums) || len(sk) != len(t.Scripts) || len(tc.redeemers[i]) != len(t.Redeemers) {
+			viol(name+":component-count", fmt.Sprintf("tx %d: %d/%d/%d datum/redeemer/script entries reported, %d/%d/%d distinct components in the witness set",
+				i, len(t.Datums), len(t.Redeemers), len(t.Scripts), len(dk), len(tc.redeemers[i]), len(sk)))
+		}
+		r.compsChecked += len(tc.datums[i]) + len(tc.scripts[i]) + len(tc.redeemers[i])
 	}
 }
 
@@ -559,7 +597,7 @@ func run(c *vh.Ctx) error {
 	c.Res.Rule = "real era blocks (Byron..Conway, Dijkstra fixture) and small blocks cut from them (1-3 transactions with their witness sets and auxiliary data), each re-encoded by vh.ParseItem -> vh.Reform under seeded header-form choices (wider length arguments, indefinite arrays/maps, wider ints/strings/tags); only encodings the era decoder accepts count (SkipBodyHashValidation, since re-encoding changes the body hash); distinct by block bytes; non-trivial = at least one non-minimal or indefinite container header"
 	c.Res.Modelled = []string{
 		"fxamacker Decode/Skip/DecodeRaw = Lib.CborParse.parse_full on the remaining input (validated by C03's parser correspondence); tag-wrapped or null containers are outside the model",
-		"Byron main blocks, epoch boundary blocks and (non-streaming) Dijkstra blocks are modelled and in the correspondence; exactness theorems: see notes",
+		"Byron main blocks, epoch boundary blocks and (non-streaming) Dijkstra blocks are modelled, in the correspondence and covered by exactness theorems (C07_byron_offsets_exact, C07_ebb_nothing_reported, C07_dijkstra_offsets_exact)",
 		"uint32 offset arithmetic is modelled in nat; no wrap below 4 GiB by C07_in_range",
 	}
 	r := &runner{c: c, coqBudget: c.Pick(80_000, 1_000_000)}
@@ -637,6 +675,7 @@ func run(c *vh.Ctx) error {
 	c.Res.Notes = append(c.Res.Notes,
 		fmt.Sprintf("accepted encodings %d (with >=1 non-minimal/indefinite container: %d = %d%%), rejected by the era decoder (not in the quantifier) %d", r.accepted, r.nonMinimal, pct, r.rejected),
 		fmt.Sprintf("witness components present in the tree but without a reported range (inside tag-258 sets, equal bytes under one hash key): %d", r.missingComps),
+		fmt.Sprintf("witness components checked for presence under their own key (both walkers): %d", r.compsChecked),
 		fmt.Sprintf("Coq cases: %d (%d KB of block literals)", c.Res.CoqCases, r.coqBytes/1000))
 	if len(r.rejectedLabels) > 0 {
 		c.Res.Notes = append(c.Res.Notes, "first rejected encodings: "+fmt.Sprint(r.rejectedLabels))
